@@ -208,8 +208,12 @@ func (e *ExecutionEngine) Execute(ctx context.Context, operation *graphql.Reques
 
 	if normalize {
 		// Normalize the operation again, this time just extracting additional variables from arguments.
+		// A variable that was only used inside a list or input object literal is inlined into the extracted
+		// value and its definition becomes unused: it has to go before the variables are renamed below,
+		// otherwise it can collide with a canonical name (a, b, ...).
 		result, err := operation.Normalize(e.config.schema,
 			astnormalization.WithExtractVariables(),
+			astnormalization.WithRemoveUnusedVariables(),
 		)
 		if err != nil {
 			return err
